@@ -17,8 +17,8 @@ STREAM_SPECS = {
     'tiles2x1':   ({'enc_mode': 8, 'tile_columns': 0, 'tile_rows': 1, 'logical_processors': 2}, {'kind': 'moving', 'seed': 17}, 6, (192, 256)),   # more tile rows than columns
     'tiles1x4':   ({'enc_mode': 8, 'tile_columns': 2, 'tile_rows': 0, 'logical_processors': 2}, {'kind': 'mix', 'seed': 18}, 5, (512, 192)),
     'tilecols_w': ({'enc_mode': 8, 'tile_columns': 1, 'tile_rows': 0, 'logical_processors': 2, 'qp': 45}, {'kind': 'moving', 'seed': 23}, 5, (640, 192)),   # two tile columns, each 5 superblocks wide, 3 superblock rows: room for the recon wavefront inside a tile
-    'superres_kf': ({'enc_mode': 8, 'superres_mode': 1, 'superres_denom': 8, 'superres_kf_denom': 16, 'logical_processors': 1, 'enable_tpl_la': 0, 'intra_period_length': 3, 'intra_refresh_type': 2}, {'kind': 'moving', 'seed': 25}, 9, (128, 128)),   # key frames coded at half width, the others at full width: frame size changes under one sequence header
-    'superres_rnd': ({'enc_mode': 8, 'superres_mode': 2, 'logical_processors': 1, 'enable_tpl_la': 0}, {'kind': 'moving', 'seed': 26}, 8, (128, 128)),
+    'superres_kf': ({'enc_mode': 6, 'superres_mode': 1, 'superres_denom': 9, 'superres_kf_denom': 16, 'logical_processors': 1, 'enable_tpl_la': 0, 'intra_period_length': 3, 'intra_refresh_type': 2}, {'kind': 'moving', 'seed': 25}, 9, (128, 128)),   # key frames coded at half width, the others at full width: frame size changes under one sequence header
+    'superres_rnd': ({'enc_mode': 6, 'superres_mode': 2, 'intra_period_length': 3, 'intra_refresh_type': 2, 'logical_processors': 1, 'enable_tpl_la': 0}, {'kind': 'moving', 'seed': 26}, 8, (128, 128)),
     'tc_intra':   ({'enc_mode': 8, 'tile_columns': 1, 'tile_rows': 0, 'logical_processors': 2, 'qp': 40, 'intra_period_length': 1}, {'kind': 'moving', 'seed': 24}, 4, (640, 320)),   # every second picture intra coded: intra prediction reads the neighbouring superblocks' pixels
     'wide64':     ({'enc_mode': 8, 'logical_processors': 1}, {'kind': 'mix', 'seed': 19}, 5, (192, 64)),
     'k3w144':     ({'enc_mode': 8, 'logical_processors': 1, 'intra_period_length': 3, 'intra_refresh_type': 2}, {'kind': 'moving', 'seed': 20}, 9, (144, 64)),   # sequence header repeated at every key frame
